@@ -22,6 +22,8 @@ POSITIVE_CLASSES = ["classic", "irregular", "recirc", "flexible", "gap", "degene
 FLOAT32_EXACT = [c for c in INSTANCE_CLASSES if c != "huge"]
 FLOAT32_EXACT_POSITIVE = [c for c in POSITIVE_CLASSES if c != "huge"]
 
+HUGE_EXPONENTS = [24, 24, 25, 26, 30, 31, 33, 40]
+
 FILTER_NAMES = [
     "dominated_operations",
     "non_immediate_machines",
@@ -150,10 +152,17 @@ def gen_instance(rng: random.Random, cls=None, max_jobs=4, max_machines=4, max_o
             for p in range(len(job)):
                 job[p] = rng.choice([0.25, 0.5, 0.75, 1.5, 2.5, 3.25, 1.0, 2.0])
     if huge:
-        big = 2 ** rng.choice([24, 24, 25, 26])
+        # beyond float32 (2**24), beyond int32 (2**31; a few operations of 2**30 add up to it),
+        # where a relative tolerance of 1e-9 swallows a difference of 1 (2**33, 2**40); a module
+        # may add 2**53 / 2**54 (beyond float64) through HUGE_EXPONENTS
+        big = 2 ** rng.choice(HUGE_EXPONENTS)
         for job in inst["durations"]:
             for p in range(len(job)):
                 job[p] = big + rng.randint(0, 120) if rng.random() < 0.7 else rng.randint(1, 60)
+        if rng.random() < 0.5:
+            # some operations of duration 1 (or 2) next to the very long ones
+            j = rng.randrange(len(inst["durations"]))
+            inst["durations"][j][rng.randrange(len(inst["durations"][j]))] = rng.choice([1, 1, 2])
     inst["cls"] = cls
     _DUR_MODE[0] = "normal"
     if max_ops is not None:
